@@ -295,7 +295,9 @@ def filter_depth(f) -> int:
 
 
 def g_result(r: random.Random, p: Profile) -> tuple:
-    code = r.choice(RESULT_CODES) if r.random() < 0.8 else r.choice(UNKNOWN_CODES)
+    x = r.random()
+    # known codes, boundary unknown codes, and a long tail of distinct unknown codes (thousands per process)
+    code = r.choice(RESULT_CODES) if x < 0.7 else r.choice(UNKNOWN_CODES) if x < 0.85 else r.randrange(124, 2**20)
     refs = None
     x = r.random()
     if x < 0.15:
